@@ -46,6 +46,17 @@ func vfH_C18_wills() {
 	vfSetDBTime(env.db, vfBaseTime)
 	conn := &vfConn{}
 	bp := NewBinaryServerProtocol(env.slock, NewStream(conn))
+	if vfChoice("inited", 2) == 1 {
+		// the client announced a client id first (as every real client does): the connection is registered
+		// in the client table, through which replies for a closed connection are re-routed
+		ic := &protocol.InitCommand{}
+		ic.Magic, ic.Version, ic.CommandType = protocol.MAGIC, protocol.VERSION, protocol.COMMAND_INIT
+		ic.ClientId[0], ic.ClientId[15] = 0xc1, 0x1d
+		_ = bp.ProcessCommad(ic)
+		vfAssert(bp.inited, "C18: harness: INIT was not accepted")
+		conn.written = nil
+		vfReach("inited")
+	}
 	// the connection takes a hold on key 9 and queues on key 8 behind the other client
 	h := env.newCmd(protocol.COMMAND_LOCK, vfKey(9), vfLockId(9))
 	h.Expried, h.ExpriedFlag = 100, 0x0200
